@@ -524,10 +524,7 @@ class Stream(StreamIterator[_RecvType], Generic[_SendType, _RecvType]):
         return self
 
     async def _maybe_finish(self) -> None:
-        if (
-            not self._cancel_done
-            and not self._stream._transport.is_closing()
-        ):
+        if not self._cancel_done:
             if not self._recv_initial_metadata_done:
                 await self.recv_initial_metadata()
             if not self._recv_trailing_metadata_done:
